@@ -310,6 +310,26 @@ roundtrip(int t, uint64_t v)
             vh_fail("decode-buffer-at-offset", key, "octets=%s at offset %zu of %zu: rc=%d value=%016" PRIx64 " offset=%zu",
                     vh_hex(ref, (size_t)rn), lead, tot, rc, got, b.offset);
     }
+    /* decoding in place: the result variable is the memory the encoding lies in (a cell that first holds the
+     * received octets and then the number); nothing in the prototypes forbids it */
+    {
+        union { uint64_t u64; int64_t s64; uint32_t u32; int32_t s32; unsigned char o[16]; } cell;
+        memset(&cell, 0xEE, sizeof cell);
+        memcpy(cell.o, ref, (size_t)rn);
+        ByteBuffer ib;
+        byte_buffer_use(&ib, cell.o, (size_t)rn);
+        int irc;
+        uint64_t iv;
+        switch (t) {
+        case T_U32: irc = varint_decode_u32(&ib, &cell.u32); iv = cell.u32; break;
+        case T_S32: irc = varint_decode_s32(&ib, &cell.s32); iv = (uint32_t)cell.s32; break;
+        case T_U64: irc = varint_decode_u64(&ib, &cell.u64); iv = cell.u64; break;
+        default: irc = varint_decode_s64(&ib, &cell.s64); iv = (uint64_t)cell.s64; break;
+        }
+        if (irc != rn || iv != v || ib.offset != (size_t)rn)
+            vh_fail("decode-in-place", key, "octets=%s decoded into the cell they lie in: rc=%d value=%016" PRIx64 " offset=%zu expected value %016" PRIx64,
+                    vh_hex(ref, (size_t)rn), irc, iv, ib.offset, v);
+    }
     struct osrc os = { .p = d, .n = (size_t)rn, .pos = 0 };
     Source src;
     octet_source_init(&src, osrc_get, &os);
